@@ -58,33 +58,43 @@ def box_order(rng, nv):
 
 
 def exact_history(rng, hid, lang, maxlen, params):
+    """maxlen bounds the number of state-changing steps; queries on the register just written are interleaved"""
     nv = rng.choice([2, 3, 3])
     regs = [1, 2, 3]
     steps = [{"op": "box", "r": r, "ord": box_order(rng, nv)} for r in regs]
-    n = rng.randint(max(3, maxlen - 4), maxlen)
-    for _ in range(n):
+    focus = rng.choice(regs)        # most steps work on one register so that constraints accumulate
+    for _ in range(rng.randint(max(3, maxlen - 3), maxlen)):
+        r = focus if rng.random() < 0.6 else rng.choice(regs)
         p = rng.random()
-        r = rng.choice(regs)
-        if p < 0.44:
+        if p < 0.55:
             steps.append({"op": "assume", "r": r, "c": lang_cst(rng, lang, nv)})
-        elif p < 0.58 or p < 0.68:
-            a, b = rng.choice(regs), rng.choice(regs)
-            d = {"op": "join" if p < 0.58 else "meet", "r": r, "a": a, "b": b}
+        elif p < 0.82:
+            a = r if rng.random() < 0.7 else rng.choice(regs)
+            b = rng.choice(regs)
+            if rng.random() < 0.5:
+                a, b = b, a
+            d = {"op": "join" if p < 0.69 else "meet", "r": r, "a": a, "b": b}
             if rng.random() < 0.4:
-                d["r"] = a
+                d["r"] = r = a
                 d["inplace"] = 1
             steps.append(d)
-        elif p < 0.76:
+        elif p < 0.92:
             v = rng.randint(1, nv)
             steps.append({"op": "forgetbox", "r": r, "v": v, "how": rng.choice(["forget", "havoc"]), "ord": rng.choice([[1, -1], [-1, 1]])})
-        elif p < 0.80:
-            steps.append({"op": "copy", "r": r, "a": rng.choice(regs)})
-        elif p < 0.92:
-            steps.append({"op": "entails", "r": r, "c": lang_cst(rng, lang, nv, rels=("le",) * 6 + ("eq", "lt", "lt"))})
-        elif p < 0.97:
-            steps.append({"op": "leq", "r": 0, "a": rng.choice(regs), "b": rng.choice(regs)})
         else:
-            steps.append({"op": "isbot", "r": r})
+            steps.append({"op": "copy", "r": r, "a": rng.choice(regs)})
+        for _ in range(rng.choice([0, 0, 1, 1, 2])):
+            q = rng.random()
+            if q < 0.7:
+                steps.append({"op": "entails", "r": r, "c": lang_cst(rng, lang, nv, rels=("le",) * 6 + ("eq", "lt", "lt"))})
+            elif q < 0.92:
+                o = rng.choice(regs)
+                a, b = (r, o) if rng.random() < 0.5 else (o, r)
+                steps.append({"op": "leq", "r": 0, "a": a, "b": b})
+            else:
+                steps.append({"op": "isbot", "r": r})
+        if rng.random() < 0.15:
+            focus = rng.choice(regs)
     h = {"id": hid, "mode": "exact", "lang": lang, "R": R, "nv": nv, "nregs": 3, "steps": steps}
     if params:
         h["params"] = params
@@ -144,8 +154,9 @@ def expand(h):
     return ph, last
 
 
-def slim(o):
-    return {"bot": o["bot"], "itv": o["itv"], "csts": o["csts"], "disj": [[]]}
+def slim(o, mode):
+    # lift mode compares the exported at(v) intervals only
+    return {"bot": o["bot"], "itv": o["itv"], "csts": o["csts"] if mode == "exact" else [], "disj": [[]]}
 
 
 def domains_of(h):
@@ -173,7 +184,7 @@ def to_traces(hs, prims, recs, only_doms=None):
             if not o["err"]:
                 for k in last:
                     rec = o["steps"][k]
-                    ent["steps"].append({"ans": rec["ans"], "o": slim(rec["o"])})
+                    ent["steps"].append({"ans": rec["ans"], "o": slim(rec["o"], h["mode"])})
             obs.append(ent)
         names = [o["dom"] for o in obs]
         pairs = []
@@ -188,6 +199,25 @@ def to_traces(hs, prims, recs, only_doms=None):
 
 
 # ---------------------------------------------------------------- pipeline
+def tuples_ml(out, tag):
+    """PrintT tuples of TLC's output, including those the pretty-printer wrapped over several lines"""
+    res, cur, depth = [], None, 0
+    for ln in out.splitlines():
+        s = ln.strip()
+        if cur is None:
+            if not s.startswith("<<"):
+                continue
+            cur, depth = "", 0
+        cur += s + " "
+        depth += s.count("<<") - s.count(">>")
+        if depth <= 0:
+            t = " ".join(cur.split()).replace("<< ", "<<").replace(" >>", ">>")
+            cur = None
+            if t.startswith('<<"%s"' % tag) and t.endswith(">>"):
+                res.append([json.loads(x) if x.strip().startswith('"') else vlib._num(x) for x in vlib._split(t[2:-2])][1:])
+    return res
+
+
 def replay_real(label, hs, doms_by_group):
     """runs dom_replay once per group of histories that share a domain list"""
     wd = workdir("c12-" + label)
@@ -218,18 +248,18 @@ def judge(ck, label, traces, timeout=1500, count=True):
     for rnd in range(6):
         tp = os.path.join(wd, "traces%d.ndjson" % rnd)
         vlib.write_ndjson(tp, todo)
-        r = tlc("ExactOps", "ExactOps", "c12-%s-%d" % (label, rnd), env={"EXACT_TRACES": tp, "KNOWN_FINDINGS": kp}, cont=False, timeout=timeout)
+        r = tlc("ExactOps", "ExactOps", "c12-%s-%d" % (label, rnd), env={"EXACT_TRACES": tp, "KNOWN_FINDINGS": kp, "EXACT_R": R}, cont=False, timeout=timeout)
         if count:
             ck.add_tlc(r, "ExactOps/%s/%d" % (label, rnd))
         if "InLanguage" in r.violated:
             raise vlib.Broken("a generated history is outside its language (generator/spec mismatch):\n" + r.out[-3000:])
-        for f in r.tuples("KNOWN"):
+        for f in tuples_ml(r.out, "KNOWN"):
             key = json.dumps(f[:5])
             if key not in seen:
                 seen.add(key)
                 knowns.append({"id": f[0], "trace": f[1], "step": f[2], "dom": f[3], "why": f[4]})
         new = []
-        for f in r.tuples("FAIL"):
+        for f in tuples_ml(r.out, "FAIL"):
             key = json.dumps(f[:4])
             if key not in seen:
                 seen.add(key)
@@ -297,8 +327,8 @@ def nontrivial(h):
 def run(tier, seed):
     ck = Check(PID, tier, seed)
     build("dom_replay")
-    n_lang, n_lift, maxlen = (400, 300, 8) if tier == "quick" else (5000, 3000, 10)
-    chunk_lang, chunk_lift = (400, 300) if tier == "quick" else (700, 900)
+    n_lang, n_lift, maxlen = (400, 300, 8) if tier == "quick" else (4000, 2400, 10)
+    chunk_lang, chunk_lift = (400, 300) if tier == "quick" else (800, 800)
     stats = {"histories": collections.Counter(), "ops": collections.Counter(), "params": collections.Counter(),
              "answers": collections.Counter(), "bottom_results": 0}
     nontriv = set()
@@ -324,7 +354,10 @@ def run(tier, seed):
             hs.append(lift_history(ck.rng, hid, maxlen, ck.rng.choice(PARAMS)))
         batches.append(("lift" + str(done // chunk_lift), hs))
         done += m
+    only = os.environ.get("C12_ONLY")       # developer option: restrict to one family (itv|zone|oct|lift)
     for label, hs in batches:
+        if only and not label.startswith(only):
+            continue
         fails, knowns, traces = run_batch(ck, label, hs)
         allf += fails
         allk += knowns
